@@ -24,9 +24,6 @@ pub mod f6 {
 pub mod f3 {
     include!("f3_commit.rs");
 }
-pub mod xp {
-    include!("x_probe.rs");
-}
 pub mod f0 {
     include!("f0_base.rs");
 }
